@@ -77,7 +77,7 @@ PROPS["C03"] = {
     "rule": ("each run generates a channel table of 1-5 names from a confusable alphabet (a, ab, a/b, A, 'a ', empty, long, non-ASCII ...), each bound to its own recording target, "
              "an endpoint allow-list (none or a subset; for websocket servers a second path with its own list), and 1-6 requests (configured, unlisted, unknown, prefix/extension/"
              "case variants, empty) issued concurrently over one session on a drawn server kind; non-trivial = every request was judged against the routing model; distinct = schedule shapes"),
-    "probes": ["routed_ok", "refusals_observed", "requests_made_together", "slow_targets", "stale_allow_lists", "server_refused_stale_configuration", "worlds_with_two_dns_endpoints"],
+    "probes": ["routed_ok", "refusals_observed", "requests_made_together", "slow_targets", "stale_allow_lists", "server_refused_stale_configuration", "worlds_with_two_dns_endpoints", "worlds_with_targets_by_host_name"],
     "technique": "deterministic simulation: generated channel tables/allow-lists/requests, concurrent requests, 10-line routing reference model vs target accept logs",
     "level_text": ("Seeded exploration against a reference routing function (exact, case-sensitive match within the endpoint's filtered list): each request must reach exactly the predicted "
                    "target (identified by PRF stream content, so a wrong target is named) or be refused with end-of-stream/reset and no data; every target's accept count must equal the predicted multiset."),
